@@ -35,7 +35,9 @@ import (
 
 const avlPath = "gno.land/p/nt/avl/v0"
 
-const maxReported = 8 // mismatches re-run and reported per driver run (the rest is counted)
+const maxPerKey = 2 // mismatches reported per failure class and driver process
+
+const maxReported = 4 // mismatches re-run and reported per driver process (the rest is counted)
 
 func loadPkg(root, path string) appenv.Pkg {
 	dir := filepath.Join(root, "examples", path)
@@ -803,16 +805,18 @@ func runSet(r *runner, set *bset) {
 		return map[string]any{"nk": nk, "keys": r.keys, "steps": behs[bi]}
 	}
 	failed := map[int]bool{}
+	perKey := map[string]int{}
 	steps := 0
 	unreported := 0
 	report := func(fl failure) {
 		if failed[fl.beh] {
 			return
 		}
-		if len(failed) >= maxReported {
+		if len(failed) >= maxReported || perKey[fl.key] >= maxPerKey {
 			unreported++
 			return
 		}
+		perKey[fl.key]++
 		// re-run the single behaviour from a fresh tree in its own transaction
 		sg := mkGroups([][]mbt.Step{behs[fl.beh]})
 		for _, g := range sg {
